@@ -277,8 +277,12 @@ func c05Reuse(o *c05Obs, eng *twig.Engine, loaded string) {
 		var err error
 		p := &c05Obs{}
 		p.guard("reuse", func() {
-			if err = eng.RegisterString("c05ok", "ok {{ a }}"); err == nil {
-				out, err = eng.Render("c05ok", map[string]interface{}{"a": "A1"})
+			// (a struct attribute too: the process-wide attribute cache must still answer)
+			if err = eng.RegisterString("c05ok", "ok {{ a }}{{ rec.X }}"); err == nil {
+				out, err = eng.Render("c05ok", map[string]interface{}{"a": "A", "rec": c05Inner{A: 1}})
+				if err == nil {
+					out, err = eng.Render("c05ok", map[string]interface{}{"a": "A", "rec": struct{ X int }{1}})
+				}
 			}
 			if err == nil {
 				out2, err = eng.Render(loaded, map[string]interface{}{"a": "A1"})
@@ -1074,6 +1078,14 @@ func c05Expand(c Case) {
 		src = b.String()
 	case "tags":
 		src = rep("{{ a }}x", n)
+	case "manyattrs":
+		// more distinct attribute names on one struct than the attribute cache holds
+		var b strings.Builder
+		for i := 0; i < n; i++ {
+			b.WriteString("{{ st.Attr" + strconv.Itoa(i) + " }}")
+		}
+		b.WriteString("[{{ st.X }}]")
+		src = b.String()
 	case "text":
 		src = rep("lorem { ipsum } % # ", n)
 	case "ternary":
